@@ -23,6 +23,15 @@ CHECKS['C01'] = (
  'Small-scope: the rounding code is parametric in p/es/nbits/emin; value sets of encodable formats come from decode() (C16). '
  'RTE/RTO overflow arm, sign of substituted specials, flags of special operands and error types are left open as the '
  'documentation does.', '§5 C01')
+CHECKS['C17'] = (
+ 'bounded exhaustive enumeration of configurations x k x modes x operands on the gap/2^(k+2) grid x ALL 2^k generator draws '
+ '(scripted generator), counted against an exact-rational model',
+ 'For every small configuration of every family that accepts random bits, k=1..3 (thorough 1..5), all 8 base modes and every '
+ 'operand on a fine grid inside selected gaps (subnormal range, binade boundaries, last gap, overflow gap), every one of the '
+ '2^k draws is supplied by a scripted generator: each result must be one of the two neighbours, the count of away-roundings '
+ 'must equal the exactly computed expectation, exactly one k-bit draw is consumed and the outcome is replay-deterministic.',
+ 'Neighbours/overflow arms come from the C01 oracle; counts past the largest value are judged only where overflow goes to '
+ 'infinity; ASSERT mode not exercised; k <= 5.', '§5 C17')
 PENDING = {}
 
 def main():
